@@ -109,11 +109,21 @@ def constraintTok (ts : List String) : Option (Constraint × List String) := lis
 
 def bool? (s : String) : Option Bool := if s == "1" then some true else if s == "0" then some false else none
 
+/-- the builder calls the harness hands a nil argument to -/
+def nilKinds : List String :=
+  ["Load.src", "Load.dst", "Store.src", "Store.dst", "Dereference", "AddDatum", "AppendDatum", "Constraints",
+   "Constraint", "Instruction", "Signature"]
+
 def parseOp : List String → Option (Op × List String)
   | "fn" :: n :: r => some (.function n, r)
   | "attr" :: a :: r => a.toNat?.map (fun a => (.attributes a, r))
-  | "doc" :: r => some (.doc, r)
-  | "pragma" :: r => some (.pragma, r)
+  | "fnx" :: n :: r => (unhexStr n).map (fun n => (.function n, r))
+  | "doc" :: r => some (.doc false, r)
+  | "docnl" :: r => some (.doc true, r)
+  | "pragma" :: r => some (.pragma false, r)
+  | "pragmanl" :: r => some (.pragma true, r)
+  | "impl" :: n :: r => some (.implement n, r)
+  | "nil" :: k :: r => (nilKinds.idxOf? k).map (fun i => (.nilArg i, r))
   | "sigbad" :: r => some (.signature none, r)
   | "sig" :: r => do
     let (ps, r) ← listOf varTok r
@@ -233,6 +243,19 @@ def flagsOK (h : Hdr) (ops : List Op) (c : Ctx) : Bool :=
   h.n == ops.length && h.f3a == flagF3a ops && h.f3b == flagF3b ops &&
   h.f4 == c.fns.any fnF4 && h.f9 == c.fns.any (fun f => adjDup [] f.nodes)
 
+def Op.slot? : Op → Option Nat
+  | .nav s _ | .load s _ _ | .store s _ _ | .dereference s _ => some s
+  | _ => none
+
+/-- every component slot a request refers to was handed out before (the model's
+`getComp` is total: an out-of-range slot would silently read as an error component) -/
+def slotsOK (c : Ctx) : List Op → Bool
+  | [] => true
+  | op :: ops =>
+    (match Op.slot? op with
+     | some s => decide (s < c.comps.length)
+     | none => true) && slotsOK (step c op) ops
+
 def b01 (b : Bool) : String := if b then "1" else "0"
 
 def respond (ops : List Op) : String :=
@@ -266,31 +289,49 @@ def parseObserved : List String → Option (Observed × List String)
     pure (⟨e, s, a, t, d, p, passErr? pe⟩, r)
   | _ => none
 
-/-- Explanation of a rejected outcome (the verdict itself is `c18Accept`). -/
-def explain (nf : Nat) (pf : List PassErr) (o : Observed) : String :=
+/-- Explanation of a rejected outcome (the verdict itself is `c18Accept`): every
+violated clause of `Spec`, in order, separated by `;` — so that a listed finding
+can demand that its own failure is the only one. -/
+def explain (nf na : Nat) (sb : Bool) (pf : List PassErr) (o : Observed) : String :=
   let pfs := ",".intercalate (pf.map PassErr.tag)
-  if o.panics != 0 then s!"bad-panic faults={nf} passfaults={pfs}"
-  else if nf > 0 then
-    if o.status == 0 then s!"bad-status-0-with-{nf}-faults"
-    else if o.asm != 0 || o.stubs != 0 then s!"bad-output-written-with-{nf}-faults"
-    else s!"bad-error-count faults={nf} errs={o.errs} diag={o.diag}"
-  else if !pf.isEmpty then
-    if o.status == 0 then s!"bad-status-0-with-passfaults={pfs}"
-    else if o.asm != 0 || o.stubs != 0 then s!"bad-output-written-with-passfaults={pfs}"
-    else s!"bad-pass-error passfaults={pfs} errs={o.errs}"
-  else s!"bad-valid-history-rejected status={o.status} errs={o.errs} diag={o.diag} asm={o.asm} stubs={o.stubs}"
+  let ctx := s!"faults={nf} nil={na} stubbreak={b01 sb} passfaults={pfs}"
+  let cl : List (Bool × String) := [
+    (o.panics != 0, "bad-panic"),
+    (o.status != 0 && (o.asm != 0 || o.stubs != 0), "bad-output-written-on-failure"),
+    (nf > 0 && o.status == 0, "bad-status-0-with-faults"),
+    (nf > 0 && !(nf ≤ o.errs && o.errs ≤ nf + na && o.diag == o.errs), s!"bad-error-count errs={o.errs} diag={o.diag}"),
+    (nf == 0 && !(o.errs ≤ na && (o.errs == 0 || (o.status != 0 && o.diag == o.errs))),
+      s!"bad-errors-without-fault errs={o.errs} diag={o.diag}"),
+    (nf == 0 && na == 0 && !pf.isEmpty && o.status == 0, "bad-status-0-with-passfaults"),
+    (nf == 0 && na == 0 && !pf.isEmpty && o.status != 0 && !decide (passErrAmong pf o), "bad-pass-error"),
+    (nf == 0 && na == 0 && pf.isEmpty && !sb && !(o.status == 0 && o.diag == 0 && o.asm > 0 && o.stubs > 0),
+      s!"bad-valid-history-rejected status={o.status} diag={o.diag} asm={o.asm} stubs={o.stubs}"),
+    (nf == 0 && na == 0 && pf.isEmpty && sb && o.status == 0 && !(o.asm > 0 && o.stubs > 0),
+      s!"bad-status-0-with-output-missing asm={o.asm} stubs={o.stubs}")]
+  let bad := (cl.filter (·.1)).map (·.2)
+  (if bad.isEmpty then "bad-unexplained" else ";".intercalate bad) ++ " " ++ ctx
+
+/-- every message class is provoked once by the harness before the histories
+(canonical request → exactly one message); this is the list it must report -/
+def calExpected : String :=
+  joinSp (([ErrClass.noFunc, .noGlobal, .badOperands, .unknownVar, .indexRange, .notPrimitive, .notPointer,
+    .noBase, .noLen, .noCap, .noReal, .noImag, .notArray, .arrayBounds, .notStruct, .noField, .movDeduce, .overlap,
+    .constraint, .constraint, .constraint, .constraint, .constraint, .noPackage].map ErrClass.tag) ++
+   ([PassErr.memBase, .memScale, .dupLabel, .endLabel, .unknownLabel, .alloc, .alloc, .alloc].map PassErr.tag))
 
 def handle : Handler
   | "c18" :: rest => do
     let (h, rest) ← parseHdr rest
     let ops ← parseOps (rest.length + 1) rest
     let c := run Ctx.init ops
+    if !slotsOK Ctx.init ops then some "bad-slot" else
     if !flagsOK h ops c then some "bad-flags" else
     some (respond ops)
   | "c18main" :: rest => do
     let (h, rest) ← parseHdr rest
     let ops ← parseOps (rest.length + 1) rest
     let c := run Ctx.init ops
+    if !slotsOK Ctx.init ops then some "bad-slot" else
     if !flagsOK h ops c then some "bad-flags" else
     some (respondMain ops)
   | "accept-c18" :: rest => do
@@ -298,18 +339,22 @@ def handle : Handler
     let (h, rest) ← parseHdr rest
     let ops ← parseOps (rest.length + 1) rest
     let c := run Ctx.init ops
+    if !slotsOK Ctx.init ops then some "bad-slot" else
     if !flagsOK h ops c then some "bad-flags" else
     -- (faults …).length = numFaults … (theorem faults_length)
     let nf := (faults Ctx.init ops).length
+    let na := numNil ops
+    let sb := stubFails c
     let pf := passFaults lim c.fns
-    some (if c18Accept nf pf o then "ok" else explain nf pf o)
+    some (if c18Accept nf na sb pf o then "ok" else explain nf na sb pf o)
   | ["c18max", mx, n] => do
     let mx ← mx.toNat?; let n ← n.toNat?
     some (toString (logLines mx n))
+  | ["c18cal"] => some calExpected
   | ["c18lim"] => some (joinSp [toString (lim 1), toString (lim 2), toString (lim 3)])
   | _ => none
 
 def handlers : List (String × Handler) :=
-  ["c18", "c18main", "accept-c18", "c18max", "c18lim"].map (·, handle)
+  ["c18", "c18main", "accept-c18", "c18max", "c18lim", "c18cal"].map (·, handle)
 
 end Avo.Drv.C18
